@@ -200,7 +200,7 @@ func ruleForReject(cmd *Cmd) string {
 	// strictness of the expression front end is C09/C16 (not claimed): what is
 	// claimed is only that a failing call leaves no trace. Success of a request
 	// that had to fail is reported under the rule of the operation.
-	return "C08.reject"
+	return "C18.class"
 }
 
 func mainRule(cmd *Cmd) string {
